@@ -302,7 +302,15 @@ pub fn mutate_tokens(src: &str, rng: &mut Rng) -> Option<String> {
         }
     };
     let i = rng.below(n);
-    match rng.below(6) {
+    match rng.below(8) {
+        6 | 7 => {
+            // wrap a short span of tokens in a bracket pair: stays a sentence exactly when the
+            // span is an expression in a position that admits the bracketed form
+            let j = (i + rng.below(3)).min(n - 1);
+            let (open, close) = [("(", ")"), ("(", ")"), ("[", "]"), ("{", "}"), ("[?", "]"), ("((", "))")][rng.below(6)];
+            parts.insert(j + 1, close.to_string());
+            parts.insert(i, open.to_string());
+        }
         0 => {
             parts.remove(i);
         }
